@@ -74,6 +74,9 @@ func c18Pause(d *vCtx) error {
 		}
 		var details []map[string]any
 		for ji := si; ji < len(jobs); ji += n {
+			if ji <= vResumeAfter() {
+				continue
+			}
 			j := jobs[ji]
 			cc := *bases[j.base]
 			cc.ID = ji
@@ -87,6 +90,10 @@ func c18Pause(d *vCtx) error {
 				"client_err": detail["client_err"], "server_err": detail["server_err"], "hung": detail["hung"]})
 			os.RemoveAll(e2eWorkDir(base, cc.ID))
 			d.add("runs", 1)
+			if e2eTainted {
+				vRequestRestart(d, ji)
+				break
+			}
 		}
 		d.set("jobs_total", len(jobs))
 		if err := tr.Close(); err != nil {
